@@ -83,7 +83,9 @@ def demanded_spreads(schema, static_t, sel_sets, frags):
 
 
 def pascal(n):
-    return "".join(p[:1].upper() + p[1:] for p in n.split("_"))
+    # (the class that belongs to a fragment is located with the generator's own spelling rule; the spelling is not what is checked)
+    from ariadne_codegen.utils import str_to_pascal_case
+    return str_to_pascal_case(n)
 
 
 def evaluate(case):
@@ -226,6 +228,8 @@ def build_cases(tier):
             import re
             ren = {"1": "Zd", "2": "Zc", "3": "Zb", "4": "Za"}
             variants.append((re.sub(r"\bF([1-4])\b", lambda m: ren[m.group(1)], g["doc_text"]), {"names_reverse_alphabetical"}))
+            ren2 = {"1": "frag_one", "2": "Frag_two", "3": "fragThree", "4": "frag_4x"}   # snake_case / mixed spellings of fragment names
+            variants.append((re.sub(r"\bF([1-4])\b", lambda m: ren2[m.group(1)], g["doc_text"]), {"names_snake_and_mixed"}))
             for gtext, vtags in variants:
                 defs = gtext.strip().split("\n")
                 ops = [x for x in defs if x.startswith("query")]
